@@ -40,6 +40,7 @@ fn main() {
         "record-paired" => paired::record(&opts),
         "replay-cursor" => cursor::replay(&opts),
         "record-cursor" => cursor::record(&opts),
+        "replay-own" => gdslh::own::replay(opts.get("flavour").expect("--flavour"), opts.get("cases").expect("--cases"), 300),
         "record-container" => container::record(&opts),
         "replay-untrusted" => serde_io::replay_untrusted(&opts),
         "record-untrusted" => serde_io::record_untrusted(&opts),
